@@ -96,6 +96,63 @@ def grid(n):
     return itertools.product(nls, lms, ranks, gps)
 
 
+NAMES = ["full", "full_nystroem", "sparse_cholesky", "sparse_nystroem", "fixed"]
+
+
+def spec_resolve(n, nl, m, rank, gp, function_estimator=False):
+    """The documented resolution rules (property text + docstrings), written independently of the code:
+    returns 'ValueError' or (TYPE_NAME, n_landmarks, rank).  Mirrors theorem C15_resolve_closed_form."""
+    if nl is not None and nl < 0:
+        return "ValueError"
+    g0 = None
+    if gp is not None:
+        norm = gp.lower().replace(" ", "_")
+        g0 = next((v for v in NAMES if v == norm), None) or next((v for v in NAMES if norm in v), None)
+        if g0 is None:
+            return "ValueError"
+    if function_estimator:
+        if g0 in ("full_nystroem", "sparse_nystroem"):
+            return "ValueError"
+        rank = 1.0
+    if nl is None:
+        if m is not None:
+            nl = m
+        elif g0 in (None, "fixed"):
+            nl = min(n, 5000)
+        elif g0 in ("full", "full_nystroem"):
+            nl = n
+        else:
+            nl = 5000
+    if rank is None:
+        rank = 0.99 if g0 in ("full_nystroem", "sparse_nystroem") else 1.0
+
+    def full_indicated(bound):
+        if isinstance(rank, int):
+            return (bound is not None and rank >= bound) or rank == 0
+        return rank >= 1.0 or rank == 0
+    g = g0
+    if g is None:
+        if nl == 0 or nl >= n:
+            g = "full" if full_indicated(n) else "full_nystroem"
+        else:
+            g = "sparse_cholesky" if full_indicated(nl) else "sparse_nystroem"
+    if function_estimator:
+        return (g.upper(), nl, rank)
+    ok = True
+    if m is not None and nl != m:
+        ok = False
+    if g in ("full", "full_nystroem") and nl != 0 and nl < n:
+        ok = False
+    if g in ("sparse_cholesky", "sparse_nystroem") and not (nl != 0 and nl < n):
+        ok = False
+    if g == "fixed" and nl == 0:
+        ok = False
+    bound = {"full": n, "full_nystroem": n, "sparse_cholesky": nl, "sparse_nystroem": nl, "fixed": None}[g]
+    if full_indicated(bound) == (g in ("full_nystroem", "sparse_nystroem")):
+        ok = False
+    return (g.upper(), nl, rank) if ok else "ValueError"
+
+
 KNOWN_KEYS = {
     "fe-landmarks-uncertainty": "C15|FunctionEstimator|landmarks|predictor_with_uncertainty|TypeError",
     "fe-landmarks-vector-sigma": "C15|FunctionEstimator|landmarks|vector-sigma|TypeError",
@@ -151,6 +208,14 @@ def run(ctx):
                              "gp_type": gp, "impl": (o[1][0].name if o[0] == "ok" else o[1])})
                 k = "%s/%s" % (cls.__name__, meta[-1]["impl"])
                 dist[k] = dist.get(k, 0) + 1
+                # independent oracle: the documented rules
+                exp = spec_resolve(n, nl, m, rank, gp, cls.__name__ == "FunctionEstimator")
+                got = (o[1][0].name, o[1][1], o[1][2]) if o[0] == "ok" else o[1]
+                if exp != got:
+                    ctx.violation("C15|rules|%s|%r->%r" % (cls.__name__, exp if isinstance(exp, str) else exp[0], got if isinstance(got, str) else got[0]),
+                                  "option combination does not resolve by the documented rules",
+                                  {"estimator": cls.__name__, "n": n, "n_landmarks": nl, "landmarks_m": m, "rank": rank, "gp_type": gp,
+                                   "expected": exp, "observed": got})
                 # independent reading of the property: only ValueError may refuse a combination
                 if o[0] == "err" and o[1] != "ValueError":
                     ctx.violation("C15|resolve|%s|%s" % (cls.__name__, o[1]), "option combination fails with an internal error",
